@@ -4,7 +4,13 @@
    _ScaleMeanStderr, stripe/measure.py::_ScaledCounts and cubepart.py::*_scale_*_margin by the
    correspondence check harness/props/c14.py).  Spec: Spec/Stats.v - weighted mean, population
    variance and median of the numeric values of the INDIVIDUAL respondents counted in a vector.
-   Proofs: Proofs/ScaleProofs.v, ScaleMedianProofs.v, ScaleExpandProofs.v.
+   Proofs: Proofs/ScaleProofs.v, ScaleMedianProofs.v, ScaleExpandProofs.v (and, historical only,
+   ScaleMedianFixProofs.v).
+
+   The model follows the code as repaired by dda43200 (median at an exact 50 % point averages
+   with the next category that has counts) and 2ba43316 (strand scale_median is None when no
+   response has a numeric value): the median theorems carry no side condition on where empty
+   categories fall, and the strand median is None exactly when mean and deviations are.
 
    Reading guide.  [ovals : list (option Q)] numeric value of each category of the opposing
    dimension (None = no value); [rs] the respondents counted in the vector as (category, weight);
@@ -80,51 +86,39 @@ Print Assumptions C14_difference_vectors.
 
 (* Unit-weight respondents [rs] (their category indexes); the vector is their tally; [ord] is ANY
    order numpy's argsort may return (a permutation of the valued categories, ascending by value).
-   The cumulative-count rule returns the median of the respondents' values PROVIDED no empty
-   category follows (in value order) a prefix holding exactly half of the respondents. *)
+   The cumulative-count rule returns the median of the respondents' values - wherever empty
+   categories fall in the value order. *)
 Theorem C14_median_eq ovals rs ord :
   let vals := map xval ovals in
   let ns := tally_nat (length ovals) rs in
   cats_below_nat (length ovals) rs ->
   valid_order vals ord = true ->
   values_of ovals rs <> [] ->
-  no_gap (map (fun i => nth i ns 0) ord) ->
   exists m, scale_median_vec ord false (map cnt ns) vals = Fin m /\
             is_median_of (values_of ovals rs) m.
 Proof. exact (median_eq ovals rs ord). Qed.
 Print Assumptions C14_median_eq.
 
-(* the side condition holds in particular when every valued category is non-empty *)
-Theorem C14_no_gap_when_all_positive ns : Forall (fun n => 0 < n) ns -> no_gap ns.
-Proof. exact (all_positive_no_gap ns). Qed.
-Print Assumptions C14_no_gap_when_all_positive.
-
 (* same statement on the value-sorted categories: values [vs] ascending, counts [ns] *)
 Theorem C14_median_sorted_categories vs ns :
-  length vs = length ns -> Sorted Qle vs -> 0 < list_sum ns -> no_gap ns ->
+  length vs = length ns -> Sorted Qle vs -> 0 < list_sum ns ->
   exists m, weighted_median (map cnt ns) vs = Fin m /\ is_median_of (expand vs ns) m.
 Proof. exact (weighted_median_is_median vs ns). Qed.
 Print Assumptions C14_median_sorted_categories.
 
-(* FULL STATEMENT (property text, no side condition) IS FALSE for the faithful model:
-     forall vs ns, length vs = length ns -> Sorted Qle vs -> 0 < list_sum ns ->
-       exists m, weighted_median (map cnt ns) vs = Fin m /\ is_median_of (expand vs ns) m.
-   Witness (replayed on the implementation, known finding C14-median-zero-count-after-half):
-   values 1,2,3 with counts 2,0,2 give 3/2; the respondents' values 1,1,3,3 have median 2. *)
-Theorem C14_median_refuted :
-  exists vs ns, length vs = length ns /\ Sorted Qle vs /\ 0 < list_sum ns /\
-    weighted_median (map cnt ns) vs = Fin (3 # 2) /\ (middle (expand vs ns) == 2)%Q.
-Proof. exact weighted_median_refuted. Qed.
-Print Assumptions C14_median_refuted.
-
-(* About the PROPOSED PATCH, not the current code: [weighted_median_fixed] (Proofs/
-   ScaleMedianFixProofs.v) is the rule with `median_idx + 1` replaced by the next category that has
-   counts; it is a median of the respondents' values with NO side condition. *)
-Theorem C14_median_patched_rule vs ns :
-  length vs = length ns -> Sorted Qle vs -> 0 < list_sum ns ->
-  exists m, weighted_median_fixed (map cnt ns) vs = Fin m /\ is_median_of (expand vs ns) m.
-Proof. exact (weighted_median_fixed_is_median vs ns). Qed.
-Print Assumptions C14_median_patched_rule.
+(* the former witness of finding C14-median-zero-count-after-half (fixed by dda43200): counts
+   2,0,2 on the values 1,2,3 - an empty category right after the exact 50 % point - give 2, the
+   median of the respondents' values 1,1,3,3 (it was 3/2) *)
+Theorem C14_median_former_witness :
+  let ovals := [Some 1; Some 2; Some 3]%Q in
+  let rs := [0; 0; 2; 2] in
+  cats_below_nat (length ovals) rs /\
+  valid_order (map xval ovals) [0; 1; 2] = true /\
+  tally_nat 3 rs = [2; 0; 2] /\ values_of ovals rs = [1; 1; 3; 3]%Q /\
+  scale_median_vec [0; 1; 2] false (map cnt (tally_nat 3 rs)) (map xval ovals) =x= Fin 2 /\
+  is_median_of (values_of ovals rs) 2.
+Proof. exact median_former_witness. Qed.
+Print Assumptions C14_median_former_witness.
 
 (* NaN for a vector without numeric-valued respondents *)
 Theorem C14_median_nan ovals rs ord :
@@ -212,20 +206,49 @@ Theorem C14_strand_median_eq ovals rs :
 Proof. exact (strand_median_eq ovals rs). Qed.
 Print Assumptions C14_strand_median_eq.
 
-Theorem C14_strand_median_none_iff ovals ns : length ovals = length ns ->
-  (strand_scale_median (map cnt ns) (map xval ovals) = None <-> Forall (fun o => o = None) ovals).
-Proof. exact (strand_median_none_iff ovals ns). Qed.
+(* None <=> no category has a value, or no respondent is counted in a valued category: exactly
+   when the strand's mean (C14_strand_mean_none_iff) and deviations are None *)
+Theorem C14_strand_median_none_iff ovals rs :
+  cats_below_nat (length ovals) rs ->
+  (strand_scale_median (map cnt (tally_nat (length ovals) rs)) (map xval ovals) = None
+   <-> (Forall (fun o => o = None) ovals \/ values_of ovals rs = [])).
+Proof. exact (strand_median_none_iff ovals rs). Qed.
 Print Assumptions C14_strand_median_none_iff.
 
-(* FULL STATEMENT (None for a strand without numeric-valued respondents) IS FALSE for the median:
-   with valued categories but no respondent the faithful model - like the implementation (known
-   finding C14-strand-median-nan-when-empty) - returns NaN where mean and deviation are None. *)
-Theorem C14_strand_median_empty_refuted :
-  exists counts vals, strand_scale_mean counts vals = None /\
-                      strand_scale_stddev_sq counts vals = None /\
-                      strand_scale_median counts vals = Some NaN.
-Proof. exact strand_median_empty_refuted. Qed.
-Print Assumptions C14_strand_median_empty_refuted.
+(* the former witness of finding C14-strand-median-nan-when-empty (fixed by 2ba43316): categories
+   valued 1, 2 and no respondent - the median is None like the mean and the deviations (it was NaN) *)
+Theorem C14_strand_median_former_witness :
+  let counts := [Fin 0; Fin 0] in let vals := [Fin 1; Fin 2] in
+  any_value vals = true /\
+  strand_scale_mean counts vals = None /\
+  strand_scale_stddev_sq counts vals = None /\
+  strand_scale_stderr_sq counts vals = None /\
+  strand_scale_median counts vals = None.
+Proof. exact strand_median_former_witness. Qed.
+Print Assumptions C14_strand_median_former_witness.
+
+(* ---- historical: the rule before dda43200 ([weighted_median_v0], used by nothing in the model) --------- *)
+(* it was a median only when no empty category followed (in value order) a prefix holding exactly
+   half of the respondents ... *)
+Theorem C14_median_v0_sorted_categories vs ns :
+  length vs = length ns -> Sorted Qle vs -> 0 < list_sum ns -> no_gap ns ->
+  exists m, weighted_median_v0 (map cnt ns) vs = Fin m /\ is_median_of (expand vs ns) m.
+Proof. exact (weighted_median_v0_is_median vs ns). Qed.
+Print Assumptions C14_median_v0_sorted_categories.
+
+(* ... in particular when every valued category is non-empty ... *)
+Theorem C14_no_gap_when_all_positive ns : Forall (fun n => 0 < n) ns -> no_gap ns.
+Proof. exact (all_positive_no_gap ns). Qed.
+Print Assumptions C14_no_gap_when_all_positive.
+
+(* ... and not otherwise: on counts 2,0,2 over 1,2,3 it gave 3/2 where the repaired rule and the
+   respondents give 2.  (So C14_median_sorted_categories separates the repaired rule from it.) *)
+Theorem C14_median_v0_not_median :
+  exists vs ns, length vs = length ns /\ Sorted Qle vs /\ 0 < list_sum ns /\
+    weighted_median_v0 (map cnt ns) vs = Fin (3 # 2) /\
+    weighted_median (map cnt ns) vs =x= Fin 2 /\ (middle (expand vs ns) == 2)%Q.
+Proof. exact weighted_median_v0_not_median. Qed.
+Print Assumptions C14_median_v0_not_median.
 
 (* ---- non-vacuity ---------------------------------------------------------------------------------------- *)
 (* five respondents with weights, categories valued 3, -, 1, 3 (unsorted, repeated, one without value) *)
@@ -245,7 +268,8 @@ Proof.
   split; [reflexivity|]. repeat split; vm_compute; reflexivity.
 Qed.
 
-(* median: values 5,1,3 (unsorted); respondents in categories 0,1,1,2,2,2 *)
+(* median: values 5,1,-,3 (unsorted, one category without value); seven respondents, one of them in
+   the category without value *)
 Example C14_example_median :
   let ovals := [Some 5; Some 1; None; Some 3]%Q in
   let rs := [0; 1; 3; 2; 1; 3; 3] in
@@ -254,11 +278,38 @@ Example C14_example_median :
   valid_order (map xval ovals) ord = true /\ ord = stable_order (map xval ovals) /\
   values_of ovals rs = [5; 1; 3; 1; 3; 3]%Q /\
   tally_nat 4 rs = [1; 2; 1; 3] /\
-  no_gap (map (fun i => nth i (tally_nat 4 rs) 0) ord) /\
   scale_median_vec ord false (map cnt (tally_nat 4 rs)) (map xval ovals) = Fin 3.
 Proof.
   cbv zeta. split; [repeat constructor|]. split; [reflexivity|]. split; [reflexivity|].
-  split; [reflexivity|]. split; [reflexivity|]. split; [|reflexivity].
-  intros k Hk H. vm_compute in Hk.
-  destruct k as [|[|k]]; vm_compute in H; try discriminate; vm_compute; lia.
+  split; [reflexivity|]. split; [reflexivity|]. reflexivity.
+Qed.
+
+(* an exact 50 % point followed (in value order) by an EMPTY category, values unsorted and
+   repeated: categories valued 4,1,-,2,4 with counts 0,2,1,0,2 - the hypotheses of C14_median_eq
+   hold and the median of the respondents' values 1,1,4,4 is 5/2 (the empty category valued 2 and
+   the empty one valued 4 that argsort may put first are both skipped) *)
+Example C14_example_median_gap :
+  let ovals := [Some 4; Some 1; None; Some 2; Some 4]%Q in
+  let rs := [4; 1; 2; 1; 4] in
+  let ord := [1; 3; 0; 4] in
+  cats_below_nat (length ovals) rs /\
+  valid_order (map xval ovals) ord = true /\
+  values_of ovals rs = [4; 1; 1; 4]%Q /\ values_of ovals rs <> [] /\
+  tally_nat 5 rs = [0; 2; 1; 0; 2] /\
+  scale_median_vec ord false (map cnt (tally_nat 5 rs)) (map xval ovals) =x= Fin (5 # 2).
+Proof.
+  cbv zeta. split; [repeat constructor|]. split; [reflexivity|]. split; [reflexivity|].
+  split; [discriminate|]. split; [reflexivity|]. vm_compute. reflexivity.
+Qed.
+
+(* strand: a valued category exists, the only respondent sits in the category without value *)
+Example C14_example_strand_none :
+  let ovals := [Some 3; None]%Q in
+  let rs := [1] in
+  cats_below_nat (length ovals) rs /\ ~ Forall (fun o => o = None) ovals /\
+  values_of ovals rs = [] /\
+  strand_scale_median (map cnt (tally_nat 2 rs)) (map xval ovals) = None.
+Proof.
+  cbv zeta. split; [repeat constructor|]. split; [intros H; inversion H; discriminate|].
+  split; reflexivity.
 Qed.
